@@ -269,11 +269,18 @@ func fsEnumerate(goit string, c *Chunk, evs []M, contents map[string][]byte, tz 
 					_, kops, _ := kr.RecordRun(append([]string{goit}, kargv...), fmt.Sprintf("%s:signal=SIGKILL:when=%d", next.Syscall, next.Ord), klog)
 					os.Remove(klog)
 					hit := false
+					kmods := 0
 					for i := range kops {
 						// (literal paths: a position on a temporary file cannot be identified across runs - its name differs, and
-						// the per-thread ordinal alone may denote another write of the same kind - so it is not cross-checked)
-						if kops[i].Syscall == next.Syscall && kops[i].Ord == next.Ord && strings.TrimPrefix(kops[i].Path, kd) == strings.TrimPrefix(next.Path, base) {
+						// the per-thread ordinal alone may denote another write of the same kind - so it is not cross-checked.
+						// A command that writes one file twice (branch -r and logs/HEAD) can have the ordinal land on the other
+						// write of that file when the goroutine ran on other threads, so the position in the sequence of
+						// modifications has to agree as well)
+						if kops[i].Syscall == next.Syscall && kops[i].Ord == next.Ord && strings.TrimPrefix(kops[i].Path, kd) == strings.TrimPrefix(next.Path, base) && kmods == k {
 							hit = true
+						}
+						if kops[i].Modifying() {
+							kmods++
 						}
 					}
 					if hit {
